@@ -134,12 +134,20 @@ def isStale : Event → Bool
 
 inductive DLabel where
   | sleep | wake | dpStart | dpRelease
+  /-- a WAKE_COMMAND frame arrives: `handleWakeCommand` calls `Wake()` and, if a poll cycle is
+      active, `signalWake()` (cancels the poll context, signals the wake channel) -/
+  | wakeCmd
   deriving DecidableEq, Repr
 
 structure DS where
   st : St
   /-- a doPoll has passed its state check and is about to call DisconnectAll -/
   parked : Bool
+  /-- a doPoll sits in its wait (`select` on poll timeout / wake signal / stop) -/
+  waiting : Bool
+  /-- configuration: the poll duration is long, so a started doPoll stays in its wait until it is
+      signalled (`true`), or short, so it times out at once (`false`) -/
+  longPoll : Bool
   deriving DecidableEq, Repr
 
 inductive DEvent where
@@ -148,19 +156,27 @@ inductive DEvent where
   deriving DecidableEq, Repr
 
 inductive DRes where
-  | ok | refused | returned | parked | disconnected | disabled
+  | ok | refused | returned | parked | waiting | disconnected | disabled
   deriving DecidableEq, Repr
 
+/-- result, and whether a waiting doPoll returned because of this step -/
 def dstep (s : DS) : DLabel → DS × DRes × List DEvent
   | .sleep => if s.st = .awake then ({ s with st := .sleeping }, .ok, []) else (s, .refused, [])
   | .wake => if s.st = .awake then (s, .refused, []) else ({ s with st := .awake }, .ok, [])
   | .dpStart =>
-    if s.parked then (s, .disabled, [])
+    if s.parked || s.waiting then (s, .disabled, [])
+    else if s.longPoll then ({ s with waiting := true }, .waiting, [])
     else if s.st = .awake then (s, .returned, [])       -- "poll cycle ended but agent is awake"
     else ({ s with parked := true }, .parked, [])
   | .dpRelease =>
     if !s.parked then (s, .disabled, [])
     else ({ s with parked := false }, .disconnected, [.disconnect (decide (s.st = .awake))])
+  | .wakeCmd =>
+    -- Wake() first; then signalWake(): a doPoll in its wait returns (through the cancelled context
+    -- it sees AWAKE, through the wake channel it calls Wake() again - refused - and returns); a
+    -- doPoll already past its state check is not affected
+    let s1 := if s.st = .awake then s else { s with st := .awake }
+    ({ s1 with waiting := false }, if s.st = .awake then .refused else .ok, [])
 
 def drun (s : DS) : List DLabel → DS × List DEvent
   | [] => (s, [])
@@ -169,6 +185,6 @@ def drun (s : DS) : List DLabel → DS × List DEvent
     let (s2, evs) := drun s1 ls
     (s2, ev ++ evs)
 
-def DS.init : DS := { st := .awake, parked := false }
+def DS.init (longPoll : Bool := false) : DS := { st := .awake, parked := false, waiting := false, longPoll }
 
 end MM.C30
